@@ -9,6 +9,7 @@ from .. import spec as sp
 from ..taps import FS, TAP
 
 ID = 'C16'
+ANCHOR_FILES = ['solver/options_parser.py', 'solver/lp_solver.py', 'solver/solver.py']
 LEVEL = 'exploration'
 EVAL_COUNTER = 'option_sets'
 RULE = ('random assignments position in {absent, -2..12} to the nine criteria (biased to 0,1,9,10 and to collisions), flags in '
